@@ -7,6 +7,7 @@ import (
 	"strings"
 
 	seccomp "github.com/elastic/go-seccomp-bpf"
+	"github.com/elastic/go-seccomp-bpf/arch"
 )
 
 func init() { commands["compile"] = cmdCompile }
@@ -52,6 +53,23 @@ func compilePolicy(le bool, archName string, p *seccomp.Policy) (res string) {
 	}()
 	setEndian(le)
 	// "A>B": the same policy VALUE is first assembled for architecture A (result ignored), then for B
+	if i := strings.Index(archName, ">"); i >= 0 && strings.HasPrefix(archName, "G:") {
+		// "G:<spelling>>B": the architecture is looked up by name through the public arch.GetInfo (B is what the
+		// documentation says the spelling denotes)
+		ai, err := arch.GetInfo(archName[2:i])
+		if err != nil {
+			return "ERR getinfo"
+		}
+		seccomp.SetArchVerif(p, ai)
+		insts, err := p.Assemble()
+		if err != nil {
+			if insts != nil {
+				return "ERR_WITH_PROGRAM " + errClass(err)
+			}
+			return "ERR " + errClass(err)
+		}
+		return instrTokens(insts)
+	}
 	if i := strings.Index(archName, ">"); i >= 0 {
 		if first, ok := allArches[archName[:i]]; ok {
 			seccomp.SetArchVerif(p, first)
